@@ -5,7 +5,7 @@ From Coq Require Import NArith List Bool.
 Import ListNotations.
 From Coq Require Import ZArith.
 From CXV Require Import Gen.TokTy Gen.ParserTables Parse.Balanced Gen.Blocks Parse.BlocksSM.
-From CXV Require Import Base.Regex Base.Cost Gen.LexRules Lex.PlyLoop Gen.StreamTables Stream.TokBuf Fmt.TokFmt PP.Filters Misc.ReprModel Gen.Schema Parse.Fold.
+From CXV Require Import Base.Regex Base.Cost Gen.LexRules Lex.PlyLoop Gen.StreamTables Stream.TokBuf Fmt.TokFmt PP.Filters Misc.ReprModel Gen.Schema Parse.Fold Parse.Declarator Parse.DeclSpec.
 Open Scope N_scope.
 
 Definition nlen {A} (l : list A) : N := N.of_nat (length l).
@@ -311,8 +311,98 @@ Definition run_fold (args : list N) : list N :=
   | [] => [99]
   end.
 
+(* ---- declarators (commands 80, 81) ---- *)
+Fixpoint dec_tks (l : list N) : list tk :=
+  match l with a :: b :: r => mkTk a b :: dec_tks r | _ => [] end.
+Fixpoint enc_tks (l : list tk) : list N :=
+  match l with [] => [] | t :: r => kty t :: kval t :: enc_tks r end.
+Definition bN (b : bool) : N := if b then 1 else 0.
+Definition Nb (n : N) : bool := negb (n =? 0).
+
+Fixpoint enc_ty (t : ty) : list N :=
+  match t with
+  | TBase b c v => [1; b; bN c; bN v]
+  | TPtr t c v => 2 :: bN c :: bN v :: enc_ty t
+  | TRef t => 3 :: enc_ty t
+  | TRRef t => 4 :: enc_ty t
+  | TArr t s => 5 :: nlen s :: enc_tks s ++ enc_ty t
+  | TFn r ps va =>
+      6 :: bN va :: nlen ps ::
+        (fix go (ps : list (ty * option N)) : list N :=
+           match ps with
+           | [] => []
+           | (t, nm) :: q => (match nm with Some n => n + 1 | None => 0 end) :: enc_ty t ++ go q
+           end) ps ++ enc_ty r
+  end.
+
+Fixpoint dec_ty (fuel : nat) (l : list N) : option (ty * list N) :=
+  match fuel with
+  | O => None
+  | S f =>
+      match l with
+      | 1 :: b :: c :: v :: r => Some (TBase b (Nb c) (Nb v), r)
+      | 2 :: c :: v :: r => match dec_ty f r with Some (t, r') => Some (TPtr t (Nb c) (Nb v), r') | None => None end
+      | 3 :: r => match dec_ty f r with Some (t, r') => Some (TRef t, r') | None => None end
+      | 4 :: r => match dec_ty f r with Some (t, r') => Some (TRRef t, r') | None => None end
+      | 5 :: n :: r =>
+          let k := (2 * N.to_nat n)%nat in
+          match dec_ty f (drop k r) with
+          | Some (t, r') => Some (TArr t (dec_tks (take k r)), r')
+          | None => None
+          end
+      | 6 :: va :: n :: r =>
+          match (fix go (k : nat) (l : list N) : option (list (ty * option N) * list N) :=
+                   match k with
+                   | O => Some ([], l)
+                   | S k' =>
+                       match l with
+                       | nm :: l1 =>
+                           match dec_ty f l1 with
+                           | Some (t, l2) =>
+                               match go k' l2 with
+                               | Some (ps, l3) => Some ((t, if nm =? 0 then None else Some (nm - 1)) :: ps, l3)
+                               | None => None
+                               end
+                           | None => None
+                           end
+                       | [] => None
+                       end
+                   end) (N.to_nat n) r with
+          | Some (ps, r1) =>
+              match dec_ty f r1 with
+              | Some (t, r2) => Some (TFn t ps (Nb va), r2)
+              | None => None
+              end
+          | None => None
+          end
+      | _ => None
+      end
+  end.
+
+(* 80: parse_var over a token list *)
+Definition run_parse_var (args : list N) : list N :=
+  let toks := dec_tks args in
+  match parse_var (4 * length toks + 8) toks with
+  | DOk (nm, t, rest) => 0 :: nm :: nlen rest :: enc_ty t
+  | DErr e => [1; e]
+  end.
+
+(* 81: format_decl / format of an encoded type: name code, then the type *)
+Definition run_print_decl (args : list N) : list N :=
+  match args with
+  | nm :: r =>
+      match dec_ty (length r) r with
+      | Some (t, _) => 0 :: enc_tks (decl_toks t (if nm =? 0 then None else Some (nm - 1)))
+      | None => [1]
+      end
+  | [] => [1]
+  end.
+
+
 Definition run_case (cmd : N) (args : list N) : list N :=
   match cmd, args with
+  | 81, _ => run_print_decl args
+  | 80, _ => run_parse_var args
   | 70, _ => run_fold args
   | 60, _ => run_nrepr args
   | 50, _ => run_filter args
